@@ -9,12 +9,15 @@ import (
 	"crypto/x509"
 	"encoding/base64"
 	"encoding/hex"
+	"errors"
 	"fmt"
 	"io"
 	"math/big"
 	"net/http"
+	"net/http/httptest"
 	"net/url"
 	"strings"
+	"syscall"
 	"testing"
 	"time"
 	"unicode/utf8"
@@ -48,6 +51,10 @@ type c12Knobs struct {
 	AltStream    uint64 `json:"alt_rand_stream"`
 	SensStep     int    `json:"sensitivity_step"`           // creation whose ID is probed byte by byte (-1: none)
 	ShortReads   int    `json:"rand_short_reads,omitempty"` // the configured random source returns at most this many bytes per Read (0: fills the buffer)
+	// RandFault: during creation number RandFaultStep the configured random source fails: "temporary-xN" N reads in a row return
+	// EAGAIN (an error that reports Temporary()), "eof", "error-once". No message is fine; a message must still carry a fresh ID.
+	RandFault     string `json:"rand_fault,omitempty"`
+	RandFaultStep int    `json:"rand_fault_at_creation,omitempty"`
 }
 
 type c12Step struct {
@@ -187,7 +194,8 @@ func genSPEgress(g *Rng, tier string) *Plan {
 		EntityID:   Pick(g, "", "", "https://sp.example.com/entity", "https://sp.example.com/entity?a=1&b=2", "urn:example:sp:é<1>"),
 		AltStream:  100 + uint64(g.Intn(1000)),
 		ShortReads: Pick(g, 0, 0, 0, 0, 1, 7, 8),
-		SensStep:   -1,
+		RandFault:  Pick(g, "", "", "", "", "", "temporary-x1", "temporary-x2", "temporary-x3", "temporary-x5", "temporary-x12", "eof", "error-once"), RandFaultStep: g.Intn(3),
+		SensStep: -1,
 	}
 	switch g.Intn(3) {
 	case 1:
@@ -269,7 +277,30 @@ type c12Reader struct {
 // c12MaxRead: an io.Reader may return fewer bytes than asked for; the run's knob says how few.
 var c12MaxRead int
 
+// c12Fail: the next n reads of the configured random source fail with err.
+var c12Fail struct {
+	n   int
+	err error
+}
+
+func c12ArmRandFault(kind string) {
+	c12Fail.n, c12Fail.err = 0, nil
+	switch {
+	case strings.HasPrefix(kind, "temporary-x"):
+		fmt.Sscanf(kind, "temporary-x%d", &c12Fail.n)
+		c12Fail.err = syscall.EAGAIN
+	case kind == "eof":
+		c12Fail.n, c12Fail.err = 1, io.EOF
+	case kind == "error-once":
+		c12Fail.n, c12Fail.err = 1, errors.New("sim: entropy device unavailable")
+	}
+}
+
 func (r *c12Reader) Read(p []byte) (int, error) {
+	if c12Fail.n > 0 {
+		c12Fail.n--
+		return 0, c12Fail.err
+	}
 	if c12MaxRead > 0 && len(p) > c12MaxRead {
 		p = p[:c12MaxRead]
 	}
@@ -307,6 +338,22 @@ type c12World struct {
 	entity string
 	reg    mapSPP
 	jar    []*http.Cookie // the browser's cookies after the most recent middleware start
+	// one IdP object for the run's login round trips (ServeSSO sees the run's requests one after another, each of them twice)
+	serving *saml.IdentityProvider
+	login   c12Login
+}
+
+const c12LoginForm = "<html>login form</html>"
+
+// c12Login is the IdP's session provider: no session yet -> it answers with a login form itself, as the bundled server does.
+type c12Login struct{ loggedIn bool }
+
+func (l *c12Login) GetSession(w http.ResponseWriter, _ *http.Request, _ *saml.IdpAuthnRequest) *saml.Session {
+	if !l.loggedIn {
+		_, _ = io.WriteString(w, c12LoginForm)
+		return nil
+	}
+	return &saml.Session{ID: "sid", NameID: "user@example.com", UserName: "user", CreateTime: time.Now(), ExpireTime: time.Now().Add(time.Hour), Index: "idx"}
 }
 
 func c12WithQuery(u, q string) string {
@@ -1215,9 +1262,20 @@ func execSPEgress(t *testing.T, p *Plan) *Result {
 			res.Nontrivial = true
 		}
 		start := rd.pos
+		faulted := k.RandFault != "" && si == k.RandFaultStep
+		if faulted {
+			c12ArmRandFault(k.RandFault)
+			res.fire("rand:" + k.RandFault)
+		}
 		em := w.emit(st, rd)
+		c12Fail.n = 0
 		if em.rawHTML != nil {
 			handedOut = append(handedOut, em)
+		}
+		if faulted && (em.pan != nil || em.err != nil) {
+			res.logf("step %d %s: the random source failed (%s) and no message was produced", si, st.Kind, k.RandFault)
+			res.dontcare("random-source-failed:no-message")
+			continue
 		}
 		if em.pan != nil {
 			res.logf("step %d %s: PANIC in the SP", si, st.Kind)
@@ -1399,6 +1457,42 @@ func execSPEgress(t *testing.T, p *Plan) *Result {
 				return res
 			}
 			line += "; IdP ACCEPT relay=same"
+
+			// login round trip at the SSO endpoint: the request arrives, the user is shown a login form, and the very same request
+			// arrives again with the credentials (the form carries it back). It is as valid the second time as the first.
+			if w.serving == nil {
+				w.serving = newIdP(c12IdPBase, rsaKeys[0], w.reg)
+				w.serving.SessionProvider = &w.login
+			}
+			w.serving.SSOURL = mustURL(w.sso[bURN])
+			present := func(loggedIn bool) (*httptest.ResponseRecorder, any) {
+				var r *http.Request
+				if d.hr.Method == "POST" {
+					r = postRequest(d.hr.URL.String(), d.hr.PostForm)
+				} else {
+					r = httptest.NewRequest("GET", d.hr.URL.String(), nil)
+				}
+				w.login.loggedIn = loggedIn
+				rec := httptest.NewRecorder()
+				return rec, guard(func() { w.serving.ServeSSO(rec, r) })
+			}
+			rec1, pan1 := present(false)
+			rec2, pan2 := present(true)
+			if pan1 != nil || pan2 != nil {
+				res.Excluded = "panic (reported under C09)"
+				return res
+			}
+			switch {
+			case rec1.Code != 200 || rec1.Body.String() != c12LoginForm:
+				res.logf("%s; ServeSSO answered %d to the first presentation", line, rec1.Code)
+				res.violate(si, "idp-rejected", "C12/"+em.site+"/idp-servesso-first-presentation", "the session provider's login form", fmt.Sprintf("status %d", rec1.Code), short(rec1.Body.String(), 200))
+				return res
+			case rec2.Code != 200 || !strings.Contains(rec2.Body.String(), "SAMLResponse"):
+				res.logf("%s; ServeSSO answered %d to the same request presented again after the login form", line, rec2.Code)
+				res.violate(si, "idp-rejected", "C12/"+em.site+"/idp-servesso-second-presentation", "the request is validated again and answered", fmt.Sprintf("status %d", rec2.Code), short(rec2.Body.String(), 200))
+				return res
+			}
+			res.probe("login-round-trip-through-servesso")
 
 			// return leg: the form the IdP sends back carries the relay state; through the middleware the flow ends at the original URL
 			var hr2 *http.Request
@@ -1717,7 +1811,7 @@ func init() {
 			"XML is read with the repository's own parser family (encoding/xml via etree after xml-roundtrip-validator): raw TAB/LF inside attributes are kept (a fully conformant parser would fold them to spaces), CR becomes LF",
 			"signatures are outside the statement: a query signature is decisive only if present and verifying under neither reading (over SAMLRequest&RelayState&SigAlg, or over the whole query before &Signature); embedded XML signatures are only counted",
 			"ID derivation measure: >= 16 bytes drawn from saml.RandReader during the creation; the ID changes when the stream changes; for one creation per run, flipping single drawn bytes changes the ID for >= 16 byte positions (if the ID is not reproducible from the bytes alone: it must embed hex/base64 of >= 16 drawn bytes)",
-			"an erroring random source panics by design (randomBytes) and is not exercised",
+			"a failing random source (temporary errors N times in a row, EOF, a plain error) may end in no message at all (randomBytes panics by design); a message that is produced all the same must carry a fresh ID like any other",
 		},
 		Components: map[string][]string{
 			"real": {"saml.ServiceProvider.Make{Redirect,Post}AuthenticationRequest / MakeAuthenticationRequest + AuthnRequest.Redirect/Post", "samlsp.New + Middleware.RequireAccount/HandleStartAuthFlow + CookieRequestTracker + Middleware.ServeHTTP (ACS)", "saml.ServiceProvider.Make{Redirect,Post}Logout{Request,Response}, MakeLogoutRequest/Response + Redirect/Post, MakeArtifactResolveRequest", "saml.NewIdpAuthnRequest + IdpAuthnRequest.Validate + DefaultAssertionMaker + PostBinding (library IdP)", "saml.RandReader seam", "html/template, etree, xml-roundtrip-validator, goxmldsig"},
